@@ -2,6 +2,8 @@
 # one-time build after a fresh restore (offline): Lean project + driver, Go build cache warm-up
 set -e
 cd "$(dirname "$0")"
+# regenerated definitions (tools/go2lean, DESIGN 12.7): the committed Generated/Go*.lean are refreshed from /repo's tree
+python3 -c "import sys; sys.path.insert(0, 'bin'); import vcore; vcore.regen_go2lean()" || true
 MODS=$(cd lean && ls Emitter/Props/*.lean | sed 's/\.lean$//; s#/#.#g')
 (cd lean && lake build driver $MODS 2>&1 | tail -3)
 (cd /repo && GOFLAGS=-mod=mod GOPROXY=off go build ./... 2>&1 | tail -5) || true
